@@ -440,7 +440,7 @@ func (v *Verifier) applyContractNamed(s *State, fc *FuncContract, sig *types.Sig
 				}
 			}
 		}
-		if rs := sig.Results(); rs.Len() >= 1 && rs.At(rs.Len()-1).Name() == "" && typeName(rs.At(rs.Len()-1).Type()) == "error" {
+		if rs := sig.Results(); rs.Len() >= 1 && env["err"] == nil && typeName(rs.At(rs.Len()-1).Type()) == "error" {
 			if rs.Len() == 1 {
 				env["err"] = res
 			} else {
